@@ -17,7 +17,8 @@
 //! sort+limit also the sequence) and output column names equal (also equal to the names the chain AST predicts).
 //! Both sides run on the same engine; an error on BOTH sides is a discard; a clean planning rejection on one side only is a
 //! discard as well (there is nothing to compare) but histogrammed; an `Internal` error or a run-time failure on one side only is a
-//! violation. The known nullability-mismatch internal errors of C01 are discards (foreign).
+//! violation — except an internal error of the SQL side alone, which leaves nothing to compare (discard, histogrammed; C01's subject).
+//! The known nullability-mismatch internal errors of C01 are discards (foreign).
 //! `unnest_columns` and SQL `unnest()` deliberately differ on NULL lists (preserve_nulls true vs false): lists are only
 //! built with `make_array(e1, e2[, e3])`, which is never NULL.
 //!
@@ -29,6 +30,10 @@
 //! shapes, so they go wrong differently. The proposed patch repairs the push-down path only. `window-builder-default-frame` — `ExprFunctionExt::order_by(..).build()` without a frame
 //! builds ROWS UNBOUNDED PRECEDING..CURRENT ROW (it passes "has an ORDER BY" where WindowFrame::new expects "ordering is
 //! strict"), while SQL text without a frame means RANGE: peers (rows with equal keys) get different running aggregates.
+//! Side findings of the thorough tier (SQL side only, discarded as `sql side internal error`, histogrammed): nested INTERSECT ALL /
+//! window / UNION BY NAME text fails in EnsureRequirements with `Assertion failed: can_interleave(children.iter())`; an aggregate
+//! `count(x + x) FILTER (WHERE ..)` over nested derived tables fails in aggregate_statistics with `Input field name count(Int64(1))
+//! does not match with the projection expression ..` — the DataFrame side plans and runs both.
 //! Robustness note: `DataFrame::window` with a non-window expression (a CAST around row_number()) panics in the physical planner
 //! (`unreachable!()`); the harness only passes bare window functions there.
 //!
@@ -513,9 +518,15 @@ pub fn build_ops(tape: Vec<u8>, max_ops: usize) -> Vec<Op> {
     let mut schema = base_schema();
     let mut alias: Option<String> = None;
     let mut ops = vec![];
+    let mut global_agg = false;
     for i in 0..n {
         let op = gen_op(&mut g, &schema, alias.as_deref(), i + 1 == n);
         let Some(next) = apply_schema(&schema, &op) else { continue };
+        // no predicate above a global aggregate (foreign known finding C01 `filter-below-empty-grouping-set`, see `run`)
+        if global_agg && filters_rows(&op) {
+            continue;
+        }
+        global_agg |= matches!(&op, Op::Aggregate { group, .. } if group.is_empty());
         alias = match &op {
             Op::Alias { name } => Some(name.clone()),
             _ => None,
@@ -524,6 +535,16 @@ pub fn build_ops(tape: Vec<u8>, max_ops: usize) -> Vec<Op> {
         ops.push(op);
     }
     ops
+}
+
+/// the op applies a predicate (one that might fold to a constant) to the rows of the chain
+fn filters_rows(o: &Op) -> bool {
+    match o {
+        Op::Filter { .. } | Op::JoinOn { .. } => true,
+        Op::SetOp { other, .. } => other.filter.is_some(),
+        Op::Join { filter, .. } => filter.is_some(),
+        _ => false,
+    }
 }
 
 // ---------------------------------------------------------------------------------------------
@@ -837,7 +858,9 @@ impl Property for C48 {
     }
     /// outcome-keyed: the signature of the observed failure (None when the case does not fail)
     fn known_signature(&self, case: &Case) -> Option<String> {
-        evaluate(case).1
+        // the engine calls this outside its panic guard: a panic of the code under test must not escape from here. The case is then
+        // evaluated again by `run` (inside the guard), where the engine classifies the panic by its location.
+        std::panic::catch_unwind(std::panic::AssertUnwindSafe(|| evaluate(case).1)).unwrap_or(None)
     }
     fn run(&self, case: &Case) -> CaseResult {
         evaluate(case).0
@@ -880,24 +903,11 @@ fn evaluate_uncached(case: &Case) -> CaseResult {
         if case.tables.len() != 2 || case.tables[0].name != "t0" || case.tables[1].name != "t1" || case.ops.len() > 40 {
             return CaseResult::discard("malformed case");
         }
-        // foreign known finding C01 `filter-below-empty-grouping-set`: a column-free filter above a global aggregate is pushed below it
-        // (the grand-total row survives); the two plan shapes are hit differently — not a DataFrame matter
+        // foreign known finding C01 `filter-below-empty-grouping-set`: a predicate above a global aggregate that is (or folds to) a column-free
+        // conjunct is pushed below the aggregate (the grand-total row survives); the two plan shapes are hit differently — not a DataFrame matter
         if let Some(at) = case.ops.iter().position(|o| matches!(o, Op::Aggregate { group, .. } if group.is_empty())) {
-            fn column_free_conjunct(e: &Expr) -> bool {
-                if let Expr::Bin(refsql::BinOp::And, l, r) = e {
-                    return column_free_conjunct(l) || column_free_conjunct(r);
-                }
-                let mut cols = false;
-                exprgen::walk(e, &mut |x| cols |= matches!(x, Expr::Col { .. }));
-                !cols
-            }
-            if case.ops[at + 1..].iter().any(|o| match o {
-                Op::Filter { pred } => column_free_conjunct(pred),
-                Op::SetOp { other, .. } => other.filter.as_ref().is_some_and(column_free_conjunct),
-                Op::Join { filter, .. } => filter.as_ref().is_some_and(column_free_conjunct),
-                Op::JoinOn { on, .. } => on.iter().any(column_free_conjunct),
-                _ => false,
-            }) {
+            // (also predicates that merely *simplify* to a constant, which cannot be told apart statically: every predicate counts)
+            if case.ops[at + 1..].iter().any(filters_rows) {
                 return CaseResult::discard("foreign known finding shape: C01 filter-below-empty-grouping-set");
             }
         }
@@ -956,6 +966,11 @@ fn evaluate_uncached(case: &Case) -> CaseResult {
                 }
                 if is_rejection(e) {
                     return CaseResult::discard(format!("{side} side rejects: {}", truncate(&e.2, 44))).labels(labels).label(format!("rejected-by:{side}"));
+                }
+                if side == "sql" && e.1 == ErrClass::Internal {
+                    // the SQL statement itself cannot be planned / run (an internal error of the SQL side is C01's subject): there are no
+                    // SQL rows to compare the DataFrame with. Histogrammed; an internal error of the DataFrame side stays a violation.
+                    return CaseResult::discard(format!("sql side internal error: {}", truncate(&e.2, 60))).labels(labels).label("sql-side-internal-error");
                 }
                 CaseResult::violation(format!("the {side} side fails with {:?} ({}): {} while the other side succeeds{}", e.1, if e.0 { "planning" } else { "execution" }, e.2, repro())).labels(labels)
             }
